@@ -178,16 +178,27 @@ def nozzle_geometric(ctx, rng, idx):
     modeln = euler.nozzle(sec, gamma=gam)
     gen.maybe_decoy(rng)
     discn = md.fvm(modeln, s0.mesh, s0.num, numflux=s0.flux, bcL=s0.bcL, bcR=s0.bcR)
-    interleaved = bool(rng.random() < 0.4)
-    ctx.describe(section=sec.desc, same_model_object_discretised_on_another_mesh_before_use=interleaved, **s0.desc())
-    if interleaved:
-        # the SAME nozzle model object is handed to a second discretisation on another mesh (same or other cell count) after the one
-        # under test was built and before it is used: the geometric source of the first one must still be that of ITS mesh
-        mesh2, _ = gen.mesh1d(rng, ncell=s0.mesh.ncell if rng.random() < 0.6 else None)
-        md.fvm(modeln, mesh2, s0.num, numflux=s0.flux, bcL=s0.bcL, bcR=s0.bcR)
-        ctx.ev("nozzle-interleaved")
-    R0 = [r.copy() for r in s0.disc.rhs(s0.field)]
+    interleaved = bool(rng.random() < 0.5)
+    # call history around the evaluation that is judged: the SAME nozzle model object is handed to a second discretisation on another
+    # mesh (same or other cell count) -- before the first one is used at all, after it has been used once, or used itself in between.
+    # The geometric source of the discretisation under test must be that of ITS mesh in every history
+    history = str(rng.choice(["second-built-before-first-use", "first-used-then-second-built", "first-used-then-second-built-and-used"])) if interleaved else "none"
+    ctx.describe(section=sec.desc, same_model_object_discretised_on_another_mesh=history, **s0.desc())
     fn = gen.fdata_prim(modeln, s0.mesh, s0.prim)
+    if interleaved:
+        if history != "second-built-before-first-use":
+            with probes.quiet(), np.errstate(all="ignore"):
+                discn.rhs(fn)
+        mesh2, _ = gen.mesh1d(rng, ncell=s0.mesh.ncell if rng.random() < 0.6 else None)
+        disc2 = md.fvm(modeln, mesh2, s0.num, numflux=s0.flux, bcL=s0.bcL, bcR=s0.bcR)
+        if history == "first-used-then-second-built-and-used":
+            x2 = mesh2.centers()
+            with probes.quiet(), np.errstate(all="ignore"):
+                disc2.rhs(gen.fdata_prim(modeln, mesh2, [np.full(mesh2.ncell, float(np.mean(s0.prim[0]))), 0.1 * np.sin(x2), np.full(mesh2.ncell, float(np.mean(s0.prim[2])))]))
+        ctx.ev("nozzle-interleaved")
+        ctx.info.setdefault("nozzle_histories", {}).setdefault(history, 0)
+        ctx.info["nozzle_histories"][history] += 1
+    R0 = [r.copy() for r in s0.disc.rhs(s0.field)]
     Rn = [r.copy() for r in discn.rhs(fn)]
     if not all(np.all(np.isfinite(r)) for r in R0 + Rn):
         raise core.Skip("nonfinite")
